@@ -22,8 +22,8 @@ PROPS = ["C01", "C02", "C03", "C04", "C05", "C06", "C07", "C08", "C09", "C10", "
 
 EXACT = "cx,rect,cxmix,cxshift,rectw,cxabut,cxsub,frames"
 ROUND = "aff-cx,aff-cxmix,aff-cxshift,aff-rect,aff-cxabut,aff-cxsub,lat"
-ALLF = EXACT + ",pinch," + ROUND      # "pinch" (many rings through one vertex) is exact too, but has no degenerate variants (kind deg)
-SHARED = "cx,rect,cxabut,cxsub,cxshift,cxmix,aff-cx,rectw,frames,aff-cxabut,frames,lat,pinch"      # weighted towards shared boundary segments
+ALLF = EXACT + ",pinch,holefill," + ROUND      # "pinch" (many rings through one vertex) is exact too, but has no degenerate variants (kind deg)
+SHARED = "cx,rect,cxabut,cxsub,cxshift,cxmix,aff-cx,rectw,frames,aff-cxabut,frames,lat,pinch,holefill"      # weighted towards shared boundary segments
 
 
 def ops(kind, fams, count, kmax=3, max_edges=120):
@@ -82,9 +82,11 @@ def plan(prop, tier):
                   ops("f32", "bigfan23,bigfan24", 200 if q else 2000, 3, 100)])],
         "C11": [("chains", {"C11", "C03", "C02"}, "any", "release",
                  [ops("chain", EXACT, 120 if q else 1000, 3, 90), ops("chain3", EXACT, 40 if q else 500, 2, 60),
-                  ops("chain", "frames,cxabut,cxsub,frames,rect", 500 if q else 5000, 3, 90), ops("chain3", "frames,cxabut", 120 if q else 1200, 3, 70)])],
+                  ops("chain", "frames,cxabut,cxsub,frames,rect", 500 if q else 5000, 3, 90), ops("chain", "holefill", 400 if q else 3000, 3, 120), ops("chain3", "frames,cxabut", 120 if q else 1200, 3, 70)])],
         "C12": [("purity", {"C12"}, "any", "release",
-                 [("fixtures",), ops("pure", ALLF, 60 if q else 500, 3, 120), ops("pure", "latraw", 80 if q else 800, 3, 120), ops("repr", EXACT, 20 if q else 100, 3, 90),
+                 [("fixtures",), ("prochist", "pf32", "fan,bigfan23,lat,bigfan24,cx,bigsliver20,aff-cx", 280 if q else 2800, 3, 100),
+                  ("prochist", "pf64", "fan,lat,cx,bigsliver25,aff-cx", 100 if q else 1000, 3, 100),
+                  ops("pure", ALLF, 60 if q else 500, 3, 120), ops("pure", "latraw", 80 if q else 800, 3, 120), ops("repr", EXACT, 20 if q else 100, 3, 90),
                   ops("history", "cx,cxmix,cxshift,aff-cx", 8 if q else 60, 4, 200)])],
         "C03": [("returns-release", {"C03"}, "any", "release",
                  [("fixtures",), ("rawcorpus", "ttouch.in"), corpus("ulp.ndjson"), corpus("ulp_frames.ndjson"), corpus("fixed_findings.ndjson"), corpus("hand.ndjson"), corpus("fan_f32.ndjson"),
@@ -112,6 +114,30 @@ def record_step(prop, step_idx, label, profile, batches, seed, workdir):
             _, kind, fams, count, kmax, max_edges = b
             vlib.vh(["rec-ops", "--kind", kind, "--family", fams, "--count", count, "--seed", bseed, "--kmax", kmax,
                      "--max-edges", max_edges, "--sid0", sid0], path, profile=profile, append=True)
+            sid0 += count
+        elif b[0] == "prochist":
+            # the same sessions recorded in two PROCESSES: this coordinate type first vs after a
+            # warm-up call in the other type; merged so that C12 compares equal calls across them
+            _, kind, fams, count, kmax, max_edges = b
+            other = "f64" if kind == "pf32" else "f32"
+            t1, t2 = os.path.join(workdir, "ph1.tmp"), os.path.join(workdir, "ph2.tmp")
+            common = ["rec-ops", "--kind", kind, "--family", fams, "--count", count, "--seed", bseed, "--kmax", kmax, "--max-edges", max_edges, "--sid0", sid0]
+            vlib.vh(common, t1, profile=profile)
+            vlib.vh(common + ["--warm", other], t2, profile=profile)
+            with open(t1) as f1, open(t2) as f2, open(path, "a") as g:
+                for l1, l2 in zip(f1, f2):
+                    d1, d2 = json.loads(l1), json.loads(l2)
+                    if [e for e in d1["events"] if e["ev"] == "def"] != [e for e in d2["events"] if e["ev"] == "def"]:
+                        raise ToolError("prochist: the two recordings of session %s differ in their inputs" % d1["sid"])
+                    for e in d2["events"]:
+                        if e["ev"] == "call":
+                            e = dict(e)
+                            e["res"] = e["res"] + "w"
+                            e["proc"] = "after-" + other
+                            d1["events"].append(e)
+                    g.write(json.dumps(d1, separators=(",", ":")) + "\n")
+            os.remove(t1)
+            os.remove(t2)
             sid0 += count
         elif b[0] == "tri":
             _, n, l, stride, off = b
@@ -255,6 +281,11 @@ def run(prop, tier, seed, t0):
             raise ToolError("BoolOpsAbs: the relational laws are not consequences of the contract in the abstract machine: %s" % (ra["tool_errors"] + ra["violated"])[:3])
         log("[%s] abstract call-history machine (BoolOpsAbs): %d states, every relational law is a consequence of the contract (%.0fs)" % (prop, ra["distinct"], dta))
         abstract = {"states": ra["distinct"], "seconds": round(dta, 1)}
+        if prop in ("C05", "C06", "C09", "C11"):
+            nob, dtp = vlib.prove_laws(os.path.join(vlib.OUT, prop, "tlaps"))
+            log("[%s] TLAPS (BoolOpsLaws): %d obligations proved - the same laws for arbitrary regions, unbounded (%.0fs)" % (prop, nob, dtp))
+            abstract["tlaps_obligations_proved"] = nob
+            abstract["tlaps_seconds"] = round(dtp, 1)
         tot_gen += ra["generated"]
         tot_dist += ra["distinct"]
     big_events = []
